@@ -28,7 +28,72 @@ def run(ctx):
     _run(ctx)
 
 
+def _constructed_then_edited(ctx):
+    """Nodes built by the constructors (from_value) with 1-4 entries in a repeated field - postings, meta, tags/links,
+    currencies, custom values, directives - are put into a document and then EDITED there: each entry in turn is deleted,
+    popped, replaced, one is inserted in front; after the construction and after every edit the invariant holds and the
+    document re-reads with as many entries as the model lists."""
+    import datetime, decimal
+    import intro, edits
+    from autobean_refactor import models
+    D = decimal.Decimal
+    d0 = datetime.date(2000, 1, 1)
+
+    def txn(n):
+        return models.Transaction.from_value(d0, None, 'n', [models.Posting.from_value(f'Assets:P{i}', D(i), 'USD') for i in range(n)],
+                                             tags=[f't{i}' for i in range(n)], meta={f'k{i}': D(i) for i in range(n)})
+    makers = {
+        'postings': (txn, lambda t: t.raw_postings, lambda i: models.Posting.from_value(f'Assets:N{i}', None, None), lambda t: len(t.raw_postings)),
+        'meta': (txn, lambda t: t.raw_meta, lambda i: models.MetaItem.from_value(f'n{i}', 'v'), lambda t: len(t.raw_meta)),
+        'tags': (txn, lambda t: t.raw_tags_links, lambda i: models.Tag.from_value(f'n{i}'), lambda t: len(t.raw_tags_links)),
+        'currencies': (lambda n: models.Open.from_value(d0, 'Assets:A', [f'CU{"RSTUV"[i]}' for i in range(n)]), lambda o: o.raw_currencies,
+                       lambda i: models.Currency.from_value('NEW'), lambda o: len(o.raw_currencies)),
+        'values': (lambda n: models.Custom.from_value(d0, 't', [f's{i}' for i in range(n)]), lambda c: c.raw_values,
+                   lambda i: models.EscapedString.from_value('new'), lambda c: len(c.raw_values)),
+    }
+    for name, (make, field, fresh, count) in makers.items():
+        for n in (1, 2, 3, 4):
+            edits_ = [('none', None)] + [(k, i) for i in range(n) for k in ('del', 'pop', 'set')] + [('insert0', 0)]
+            for kind, i in edits_:
+                for host in ('file-constructor', 'appended'):
+                    rep = {'probe': 'constructed-then-edited', 'field': name, 'n': n, 'edit': kind, 'i': i, 'host': host}
+                    try:
+                        node = make(n)
+                        if host == 'file-constructor':
+                            f = models.File.from_value([models.Close.from_value(d0, 'Assets:Z'), node])
+                        else:
+                            f = edits.P().parse('2000-01-01 close Assets:Z\n', models.File)
+                            f.raw_directives.append(node)
+                        w = field(node)
+                        if kind == 'del':
+                            del w[i]
+                        elif kind == 'pop':
+                            w.pop(i)
+                        elif kind == 'set':
+                            w[i] = fresh(i)
+                        elif kind == 'insert0':
+                            w.insert(0, fresh(0))
+                    except Exception as e:
+                        ctx.oracle_fail(f'C05:constructed-then-edited:raises:{type(e).__name__}', f'{name} n={n} {kind} {i} ({host}): {str(e)[:160]}', rep)
+                        continue
+                    ctx.case(('constructed-then-edited', name, n, kind, host))
+                    bad = intro.check_inv(f)
+                    if bad:
+                        ctx.oracle_fail(f'C05:{bad[0][0]}:constructed-then-edited', f'{name} n={n} {kind} {i} ({host}): {bad[0][1]}', rep)
+                        continue
+                    text = intro.pr(f)
+                    try:
+                        again = edits.P().parse(text, models.File)
+                        got = count(again.raw_directives[1])
+                    except Exception as e:
+                        got = f'does not parse: {type(e).__name__}'
+                    if got != count(node):
+                        ctx.oracle_fail('C05:constructed-then-edited:text-and-tree-disagree', f'{name} n={n} {kind} {i} ({host}): the model lists {count(node)} entries, '
+                                        f'the printed text {text!r} re-reads with {got}', rep)
+
+
 def _run(ctx):
+    _constructed_then_edited(ctx)
     obs = _observers() if ctx.extra.get('model_available', True) else []
     session.run_sessions(ctx, ctx.scale(250, 6000), ctx.scale(14, 40), ['inv', 'reads', 'nodouble'], observers=obs, malformed=0.12)
     session.run_churn(ctx, ctx.scale(100, 1500), ctx.scale(50, 80), ['inv', 'reads'], observers=obs)   # small blocks: split/merge/redistribution underneath
@@ -45,4 +110,10 @@ def search(ctx, hints):
 
 
 def replay(ctx, data):
+    rep = data.get('replay') or data
+    if isinstance(rep, dict) and rep.get('probe') == 'constructed-then-edited':
+        import check
+        c = check.Ctx('C05', 'quick', ctx.seed)
+        _constructed_then_edited(c)
+        return not c.oracle_fails
     return not session.replay(data, ['inv', 'reads', 'nodouble'])
